@@ -5,6 +5,9 @@ for the model).  A program is JSON:
   expr : ["v", x] | ["idx", e, i] | ["fld", e, f] | ["tup", [e..]] | ["lst", [e..]] | ["int"]
   stmt : ["assign", x, e] | ["call", ret|None, [[ty, borrowed]..], rty, [e..]] | ["setidx", e, i, v]
        | ["setfld", e, f, v] | ["mut", e, m, v] | ["copy", x, e] | ["return", e]
+       | ["opaque", "barrier"|"panic"|"exit", [e..]]   callee without a signature of its own
+  a "call" may carry a 6th element "ov_eat" | "ov_lend": it is written as a call to an overloaded
+  function (variants: 1 or 2 qubits, owned resp. borrowed); the params are those of the variant
   m    : append pop clear reverse extend insert del<i> iadd imul init remove sort
 Parameter i is variable i.  `borrowed` is only ever True for non-copyable types (for copyable
 types Guppy has no borrow flag; such inputs are traced as owned, i.e. frozen)."""
@@ -121,12 +124,36 @@ class Gen:
                     body.append(["call", None, [[t, False]], "n", [e]])
                 else:
                     body.append(["call", None, [[t, True]], "n", [e]])
-            elif k < 0.47 and len(ps) >= 2:               # two-argument call
+            elif k < 0.46 and len(ps) >= 2:               # two-argument call
                 (e1, t1), (e2, t2) = r.choice(ps), r.choice(ps)
                 b1, b2 = (not copyable(t1)) and r.random() < 0.7, (not copyable(t2)) and r.random() < 0.7
                 if disciplined and (not b1 and not copyable(t1) or not b2 and not copyable(t2) or e1 == e2):
                     continue
                 body.append(["call", None, [[t1, b1], [t2, b2]], "n", [e1, e2]])
+            elif k < 0.535 and ps:                        # callee without own signature / overloaded
+                qs = [(e, tt) for e, tt in ps if tt == "q"]
+                big = [(e, tt) for e, tt in ps if tt in ("q", Q2)]
+                kind = r.choice(["barrier", "barrier", "panic", "exit", "ov_eat", "ov_lend", "ov_lend"])
+                pool = big if kind in ("barrier", "panic", "exit") else qs
+                if not pool:
+                    continue
+                picked = [r.choice(pool) for _ in range(r.choice([1, 1, 2]))]
+                if len(picked) == 2 and picked[0][0] == picked[1][0] and (disciplined or r.random() < 0.7):
+                    picked = picked[:1]
+                consumes = kind in ("panic", "exit", "ov_eat")
+                if disciplined and consumes:
+                    whole = [x for x in sorted(live) if vars_[x] in ("q", Q2) and not (x < len(params) and params[x][1])]
+                    if kind == "ov_eat":
+                        whole = [x for x in whole if vars_[x] == "q"]
+                    if not whole:
+                        continue
+                    x = r.choice(whole)
+                    picked = [(["v", x], vars_[x])]
+                    live.discard(x)
+                if kind in ("barrier", "panic", "exit"):
+                    body.append(["opaque", kind, [e for e, _ in picked]])
+                else:
+                    body.append(["call", None, [["q", kind == "ov_lend"] for _ in picked], "n", [e for e, _ in picked], kind])
             elif k < 0.60:                                # create
                 t = r.choice(TYPES)
                 body.append(["call", nxt, [], t, []])
@@ -253,6 +280,9 @@ def well_scoped(p):
             reads = expr_vars(s[1]) | expr_vars(s[3])
         elif k == "return":
             reads = expr_vars(s[1])
+        elif k == "opaque":
+            for a in s[2]:
+                reads |= expr_vars(a)
         if not reads <= defined:
             return False
         if k in ("assign", "copy"):
@@ -302,8 +332,11 @@ def py_stmt(s, sigs):
     k = s[0]
     if k == "assign":
         return f"v{s[1]} = {py_expr(s[2])}"
+    if k == "opaque":
+        args = ", ".join(py_expr(a) for a in s[2])
+        return {"barrier": f"barrier({args})", "panic": f'panic("stop", {args})', "exit": f'exit("stop", 1, {args})'}[s[1]]
     if k == "call":
-        fn = sigs[sig_key(s[2], s[3])]
+        fn = s[5] if len(s) > 5 else sigs[sig_key(s[2], s[3])]
         c = f"{fn}(" + ", ".join(py_expr(a) for a in s[4]) + ")"
         return c if s[1] is None else f"v{s[1]} = {c}"
     if k == "setidx":
@@ -328,10 +361,14 @@ def py_module(progs):
     sigs = {}
     for p in progs:
         for s in p["body"]:
-            if s[0] == "call":
+            if s[0] == "call" and len(s) <= 5:
                 sigs.setdefault(sig_key(s[2], s[3]), f"fn_{len(sigs)}")
     L = ["import repo_shim  # noqa: F401", "from guppylang.decorator import guppy",
-         "from guppylang.std.builtins import array, owned", "from guppylang.std.quantum import qubit", ""]
+         "from guppylang.std.builtins import array, barrier, exit, owned, panic", "from guppylang.std.quantum import qubit", "",
+         "@guppy.declare", "def _eat1(a: qubit @ owned) -> None: ...", "@guppy.declare", "def _eat2(a: qubit @ owned, b: qubit @ owned) -> None: ...",
+         "@guppy.overload(_eat1, _eat2)", "def ov_eat(): ...",
+         "@guppy.declare", "def _lend1(a: qubit) -> None: ...", "@guppy.declare", "def _lend2(a: qubit, b: qubit) -> None: ...",
+         "@guppy.overload(_lend1, _lend2)", "def ov_lend(): ...", ""]
     for i, fs in enumerate(STRUCTS):
         L += ["@guppy.struct", f"class S{i}:"] + [f"    f{j}: {py_ty(t)}" for j, t in enumerate(fs)] + [""]
     for key, fn in sigs.items():
@@ -390,6 +427,8 @@ def coq_stmt(s):
     k = s[0]
     if k == "assign":
         return f"SAssign {s[1]} {coq_expr(s[2])}"
+    if k == "opaque":
+        return f"SOpaque {'true' if s[1] == 'barrier' else 'false'} [" + "; ".join(coq_expr(a) for a in s[2]) + "]"
     if k == "call":
         ret = "None" if s[1] is None else f"(Some {s[1]})"
         return f"SCall {ret} {coq_params(s[2])} {coq_ty(s[3])} [" + "; ".join(coq_expr(a) for a in s[4]) + "]"
